@@ -455,10 +455,17 @@ def describe(case, obs):
 
 def shrink(case):
     cfg = case["cfg"]
+    sub = case["parser"].get("sub")
     for path, _ in list(all_keys(cfg)):
-        if path[-1] == "class_path":
-            continue  # a class value without class_path is outside the modelled space
+        # stay inside the modelled space and do not drift into the listed finding classes: keep class_path (a class value
+        # without it is not modelled), keep init_args (class 3), keep the subcommand dest (class 2), never leave an empty
+        # mapping behind (class 1)
+        if path[-1] in ("class_path", "init_args") or (sub and len(path) == 1 and path[0] == sub["dest"]):
+            continue
         try:
+            parent = at(cfg, path[:-1])
+            if isinstance(parent, dict) and len(parent) == 1 and len(path) > 1:
+                continue
             c = remove(cfg, path, False)
         except (KeyError, IndexError, TypeError):
             continue
